@@ -52,10 +52,12 @@ PROVED = ('For every command method, protocol version, X-mode setting and argume
           '(float32 rounding, thousandths truncated toward zero, firmware sign flips undone, X-mode rotation, spiral '
           'clamps, yaw None -> useCurrentYaw); integer arguments outside the field range, thrust outside 0..65535, '
           'floats beyond binary32 range and fixed-point values beyond int16 raise; the header byte is lossless for '
-          '16 x 4 port/channel pairs; LH persist masks have bit b set iff b is in the list.')
-NOT_PROVED = ('The float32 rounding error bound as a real-number inequality (rounding is the standard library\'s '
-              'binary_round, an executable definition, not related to the reals here); units of the caller\'s '
-              'arguments (the full-state docstring says degrees/s where the firmware struct says millirad/s); '
+          '16 x 4 port/channel pairs; LH persist masks have bit b set iff b is in the list.  Over the reals (Flocq, '
+          'FloatProperty.v): every float field is the round-to-nearest-even binary32 of the argument, |f32(x)-x| <= 2^-24|x| '
+          'for 2^-126 <= |x| <= max float32, OverflowError iff the rounding reaches 2^128; every thousandths field t has '
+          'floor(1000x) <= t <= ceil(1000x), |t-1000x| < 1 inside int16 and raises outside.')
+NOT_PROVED = ('A relative error bound for float32 results in the subnormal range; real-number meaning of the binary64 X-mode '
+              'products; the unit of the full-state rates is a known finding (F08b: docstring degrees/s, firmware millirad/s); '
               'Localization.send_short_lpp_packet with arbitrary bytes is only shown to be [2, dest] ++ data.')
 
 HERE = os.path.dirname(os.path.dirname(os.path.abspath(__file__)))
